@@ -657,15 +657,20 @@ def _reg_probe_3(self, dim: int = 0):
 _REG_FUNCS = (_reg_probe_1, _reg_probe_2, _reg_probe_3)
 
 
-def _fresh_registry_run(calls):
+def _fresh_registry_run(calls, explicit=False):
     """Apply decorator calls [(names, private, complex)] to a fresh Registry installed as the default one;
-    -> (per-call result, [(qualified_name, function number, is_complex)] from the real get_torchlib_ops(), warnings)"""
+    -> (per-call result, [(qualified_name, function number, is_complex)] from the real get_torchlib_ops(), warnings)
+    explicit=True: the fresh (still empty) Registry is PASSED as torch_op(..., registry=fresh) while another empty Registry - the
+    bystander - is the default one: every registration must land in the registry that was named, the bystander stays empty
+    (TorchRegistry.tla has one `reg` per registry object; session 6, seeded C16-m10)."""
     from onnxscript._framework_apis import torch_2_5 as api
     from onnxscript.function_libs.torch_lib import registration
 
     saved = registration.default_registry
     fresh = registration.Registry()
-    registration.default_registry = fresh
+    bystander = registration.Registry()
+    registration.default_registry = bystander if explicit else fresh
+    kw = {"registry": fresh} if explicit else {}
     results, made, nwarn, keep = [], {}, 0, []
     ops_error = None
     try:
@@ -678,12 +683,14 @@ def _fresh_registry_run(calls):
             with warnings.catch_warnings(record=True) as w:
                 warnings.simplefilter("always")
                 try:
-                    keep.append(registration.torch_op(name_arg, trace_only=True, private=private, complex=cplx)(f))
+                    keep.append(registration.torch_op(name_arg, trace_only=True, private=private, complex=cplx, **kw)(f))
                     made[id(keep[-1])] = k + 1
                     results.append("ok")
                 except Exception as ex:  # ValueError / TypeError are the modelled refusals; anything else is compared as well
                     results.append(type(ex).__name__)
                 nwarn += sum(1 for x in w if "already registered" in str(x.message))
+        leaked = list(bystander)
+        registration.default_registry = fresh          # get_torchlib_ops() reads the default registry
         with warnings.catch_warnings():
             warnings.simplefilter("ignore")
             try:
@@ -691,6 +698,8 @@ def _fresh_registry_run(calls):
             except Exception as ex:  # the code under test fails on this registry state: an outcome, reported by the caller
                 ops, ops_error = [], f"{type(ex).__name__}: {str(ex)[:200]}"
         contents = list(fresh)
+        if explicit and leaked and ops_error is None:
+            ops_error = f"RegistryLeak: torch_op(..., registry=<user registry>) registered {leaked[:3]} in the DEFAULT registry instead"
     finally:
         registration.default_registry = saved
     return results, ops, nwarn, contents, ops_error
@@ -706,8 +715,8 @@ def _probe_chunk(names):
 
 def _hist_chunk(hists):
     out = []
-    for h in hists:
-        r = _fresh_registry_run(h)
+    for k, h in enumerate(hists):
+        r = _fresh_registry_run(h, explicit=(k % 2 == 1))      # every other history names its registry explicitly
         out.append((r[0], r[1], r[2], r[4]))
     return out
 
@@ -774,7 +783,8 @@ def part_registry(ctx: core.Ctx):
                 key = ("raises", ops_error.split(":")[0])
                 if key not in seen_bad:
                     seen_bad.add(key)
-                    ctx.report(dict(case, error=ops_error), f"get_torchlib_ops() raises {ops_error} after the registration history {h}")
+                    ctx.report(dict(case, error=ops_error), (f"{ops_error} (registration history {h})" if ops_error.startswith("RegistryLeak")
+                                                             else f"get_torchlib_ops() raises {ops_error} after the registration history {h}"))
                 else:
                     ctx.add("registry_violations_not_listed")
             elif stray and not (dup or bad):
